@@ -51,6 +51,7 @@ use iceoryx2_cal::dynamic_storage::DynamicStorage;
 use iceoryx2_cal::zero_copy_connection::{CHANNEL_STATE_OPEN, ChannelId};
 use iceoryx2_log::{fail, warn};
 
+use crate::node::SharedNode;
 use crate::port::port_name::PortName;
 use crate::port::update_connections::UpdateConnections;
 use crate::service::SharedServiceState;
@@ -110,6 +111,9 @@ pub(crate) struct SubscriberSharedState<Service: service::Service> {
     // Otherwise the process might crash during cleanup, has already removed the tag but other resources
     // are still existing. This would make a cleanup from another process impossible.
     port_tag: Service::StaticStorage,
+    // Keeps the node alive until the port tag is removed. If the port is the last owner of the
+    // node, the node could otherwise not remove its directory since it still contains the tag.
+    _shared_node: SharedNode<Service>,
 }
 
 impl<Service: service::Service> Abandonable for SubscriberSharedState<Service> {
@@ -117,6 +121,7 @@ impl<Service: service::Service> Abandonable for SubscriberSharedState<Service> {
         let this = unsafe { this.as_mut() };
         unsafe { Receiver::abandon_in_place(NonNull::from_mut(&mut this.receiver)) };
         unsafe { Service::StaticStorage::abandon_in_place(NonNull::from_mut(&mut this.port_tag)) };
+        unsafe { SharedNode::abandon_in_place(NonNull::from_mut(&mut this._shared_node)) };
     }
 }
 
@@ -216,6 +221,7 @@ impl<
                         "{msg} since the port tag, that is required for cleanup, could not be created. [{e:?}]");
             }
         };
+        let shared_node = service.shared_node().clone();
 
         let publisher_list = &service
             .dynamic_storage()
@@ -279,6 +285,7 @@ impl<
 
         let subscriber_shared_state = Service::ArcThreadSafetyPolicy::new(SubscriberSharedState {
             port_tag,
+            _shared_node: shared_node,
             publisher_list_state: UnsafeCell::new(unsafe { publisher_list.get_state() }),
             receiver: Receiver {
                 connections: PolymorphicVec::from_fn(
